@@ -14,8 +14,12 @@ FEATURES = ('nested', 'vecnot', 'twokernels', 'drvloop', 'carry', 'twocalls', 'k
 FSETS = [FEATURES, FEATURES, FEATURES + ('fuse',), FEATURES + ('accum',)]
 
 
+CORPUS_PICK = {'corpus-carry': ['vvector', 'svector', 'vhoist-kw', 'vstack'],
+               'corpus-basic': ['vvector-trim', 'shoist', 'shoist-kw', 'sraw', 'vraw', 'vftrptr', 'vdirectidx', 'sstack']}
+
+
 def gen_cases(ctx, n):
-    cases = []
+    cases = S.corpus('C37', ctx.rng)
     for i in range(n):
         feats = FSETS[i % len(FSETS)]
         g = S.GenSCC(ctx.rng, feats, names='ifs' if i % 3 else 'alt')
@@ -31,12 +35,14 @@ def run(ctx):
         cases = [(c['prog'], c['inputs'])]
         pick = {0: [c['variant']] if c.get('variant') else variants}
     else:
-        n, per = (8, 5) if ctx.quick else (90, 8)
+        n, per = (6, 5) if ctx.quick else (70, 8)
         cases = gen_cases(ctx, n)
         # rotate so that every variant is exercised; 'fuse' programs always see the variants that pass `vertical`
         pick = {}
         for i, (prog, _) in enumerate(cases):
             vs = [variants[(i * per + j) % len(variants)] for j in range(per)]
+            if prog['features'][0] in CORPUS_PICK:
+                vs = CORPUS_PICK[prog['features'][0]]
             if 'fuse' in prog['features']:
                 vs = list(dict.fromkeys(['vvector-vertical', 'svector-trim', 'vhoist-kw'] + vs))[:per]
             pick[i] = vs
